@@ -40,7 +40,7 @@ ANCHORS = ['pfhedge.nn.modules.hedger:Hedger.compute_hedge',
            'pfhedge.features.features:Variance.get',
            'pfhedge.features.features:Moneyness.get']
 DECIDING = ["hedge.prefix_invariant", "hedge.no_trade_at_maturity", "feature.prefix_invariant"]
-REQUIRED_BRANCHES = ["user_forward_hook_limits_position", "variance_exactly_zero_before_the_end", "feature.step_counted_from_the_end", "sibling_hedger_shares_features", "branch.stepwise", "branch.vectorised", "poison.nan", "poison.scale", "poison.resample", "grad.on", "grad.off"]
+REQUIRED_BRANCHES = ["model.random_layer_in_train_mode", "user_forward_hook_limits_position", "variance_exactly_zero_before_the_end", "feature.step_counted_from_the_end", "sibling_hedger_shares_features", "branch.stepwise", "branch.vectorised", "poison.nan", "poison.scale", "poison.resample", "grad.on", "grad.off"]
 
 
 def snapshot(derivative):
@@ -99,6 +99,18 @@ def drv_hedge(ctx, k, rng):
         ctx.branch("user_forward_hook_limits_position")
     model_kind = desc["model"]
     bsmodel = model_kind in ("bs", "ww")
+    random_layer = False
+    if model_kind in ("linear", "mlp") and (rng.random() < 0.2 or k % 10 == 7):
+        # a model with a random layer, evaluated in train mode (as fit does): with the random state fixed before every evaluation the hedge is a
+        # deterministic function of the market data, and the position at maturity is still the one held over the last step
+        n_in_ = hedger.model.in_features if isinstance(hedger.model, torch.nn.Linear) else hedger.model[0].in_features
+        n_h_ = 1 if hedge is None else len(hedge)
+        ref_ = next(hedger.model.parameters())
+        hedger.model = torch.nn.Sequential(torch.nn.Linear(n_in_, 6), torch.nn.Tanh(), torch.nn.Dropout(0.4), torch.nn.Linear(6, n_h_)).to(ref_.dtype)
+        hedger.train()
+        random_layer = True
+        ctx.branch("model.random_layer_in_train_mode")
+    mask_seed = int(rng.integers(1 << 30))
     snap = snapshot(derivative)
     stepwise = hedger.inputs.of(derivative, hedger).is_state_dependent()
     ctx.branch("branch.stepwise" if stepwise else "branch.vectorised")
@@ -117,6 +129,8 @@ def drv_hedge(ctx, k, rng):
                 pass
 
     run_sibling()
+    if random_layer:
+        torch.manual_seed(mask_seed)
     with torch.set_grad_enabled(grad):
         h0 = hedger.compute_hedge(derivative, hedge).detach().clone()
     n_h = 1 if hedge is None else len(hedge)
@@ -133,6 +147,8 @@ def drv_hedge(ctx, k, rng):
         poison(snap, tc, kind, rng, skip_nan_on_vol=(bsmodel and not stepwise))
         ctx.seen(mon)
         run_sibling()
+        if random_layer:
+            torch.manual_seed(mask_seed)
         try:
             with torch.set_grad_enabled(grad):
                 h1 = hedger.compute_hedge(derivative, hedge).detach()
